@@ -69,9 +69,8 @@ theorem msgValidB_sound (votes : List Vote) (t : Table) (m : Msg) (h : msgValidB
       rw [hmj] at hj
       simp only [justFor, hph, Bool.and_eq_true, beq_iff_eq, Bool.or_eq_true, List.isEmpty_iff] at hj
       exact ⟨j, rfl, justOkB_sound _ _ _ hj.1.1, hj.1.2, hj.2⟩
-  · simp only [Bool.and_eq_true] at hs
-    obtain ⟨hne, hj⟩ := hs
-    refine ⟨isEmpty_false_ne hne, ?_, ?_⟩
+  · have hj := hs
+    refine ⟨?_, ?_⟩
     · intro hr
       simp only [hr, beq_self_eq_true, if_true, Option.isNone_iff_eq_none] at hj
       exact hj
@@ -113,13 +112,18 @@ def opValidB (votes : List Vote) (t : Table) : Op → Bool
   | _ => true
 
 theorem opValidB_sound (votes : List Vote) (t : Table) (ops : List Op)
-    (h : ops.all (opValidB votes t) = true) : ∀ op ∈ ops, OpValidG (Wof votes) t op := by
+    (h : ops.all (fun op => foreign op || opValidB votes t op) = true) :
+    ∀ op ∈ ops, foreign op = true ∨ OpValidG (Wof votes) t op := by
   intro op hop
   have := List.all_eq_true.1 h op hop
-  cases op with
-  | recv now m => exact msgValidB_sound votes t m this
-  | start _ => trivial
-  | alarm _ => trivial
+  simp only [Bool.or_eq_true] at this
+  rcases this with hf | hv
+  · exact Or.inl hf
+  · right
+    cases op with
+    | recv now m => exact msgValidB_sound votes t m hv
+    | start _ => trivial
+    | alarm _ => trivial
 
 
 /-! ### a concrete network: four members of equal power, member 4 Byzantine and equivocating in PREPARE -/
@@ -140,6 +144,7 @@ def exOps : List Op :=
    .recv 2 { sender := 2, round := 0, phase := .quality, value := [7,8] },
    .recv 3 { sender := 4, round := 0, phase := .prepare, value := [7,9] },
    .recv 4 { sender := 3, round := 0, phase := .quality, value := [7,8] },
+   .recv 5 { sender := 4, round := 0, phase := .prepare, value := [9,9], suppOk := false },
    .recv 12 { sender := 4, round := 0, phase := .prepare, value := [7,8] },
    .recv 13 { sender := 1, round := 0, phase := .prepare, value := [7,8] },
    .recv 14 { sender := 2, round := 0, phase := .prepare, value := [7,8] },
@@ -149,7 +154,8 @@ def exOps : List Op :=
    .recv 18 { sender := 3, round := 0, phase := .commit, value := [7,8], just := some exJp },
    .recv 19 { sender := 1, round := 0, phase := .decide, value := [7,8], just := some exJc },
    .recv 20 { sender := 2, round := 0, phase := .decide, value := [7,8], just := some exJc },
-   .recv 21 { sender := 3, round := 0, phase := .decide, value := [7,8], just := some exJc }]
+   .recv 21 { sender := 3, round := 0, phase := .decide, value := [7,8], just := some exJc },
+   .recv 22 { sender := 1, round := 0, phase := .decide, value := [7,8], just := some exJc }]
 
 def exF : Finset Pid := {4}
 abbrev exW : Votes := Wof exVotes
@@ -191,7 +197,7 @@ def exRun (p : Pid) (hp : p = 1 ∨ p = 2 ∨ p = 3) : HonestRun exW exTbl p whe
   ops := exOps
   inputNe := by decide
   valid := opValidB_sound exVotes exTbl exOps (by decide)
-  nofail := by decide
+  ok := by decide
   own := by
     intro r ph v
     show Wof exVotes p r ph v ↔ _
